@@ -277,6 +277,9 @@ func (maybeSelf someDef[T]) ToFloat32() (float32, error) {
 		return (ref).(float32), nil
 	case float64:
 		val, err := maybeSelf.ToFloat64()
+		if math.Abs(val) > math.MaxFloat32 && !math.IsInf(val, 0) {
+			return 0, ErrConversionSizeOverflow
+		}
 		return float32(val), err
 	}
 }
@@ -621,13 +624,17 @@ func (maybeSelf someDef[T]) ToInt32() (int32, error) {
 		return 0, ErrConversionSizeOverflow
 	case float32:
 		val, err := maybeSelf.ToFloat32()
-		if val >= math.MinInt32 && val <= math.MaxInt32 {
-			return int32(math.Round(float64(val))), err
+		// Compare the rounded value as a float64: float32 cannot represent MaxInt32
+		if rounded := math.Round(float64(val)); rounded >= math.MinInt32 && rounded <= math.MaxInt32 {
+			return int32(rounded), err
 		}
 		return 0, ErrConversionSizeOverflow
 	case float64:
 		val, err := maybeSelf.ToFloat64()
-		return int32(math.Round(val)), err
+		if rounded := math.Round(val); rounded >= math.MinInt32 && rounded <= math.MaxInt32 {
+			return int32(rounded), err
+		}
+		return 0, ErrConversionSizeOverflow
 	}
 }
 
@@ -692,13 +699,14 @@ func (maybeSelf someDef[T]) ToInt64() (int64, error) {
 		return (ref).(int64), nil
 	case float32:
 		val, err := maybeSelf.ToFloat32()
-		if val >= math.MinInt64 && val <= math.MaxInt64 {
+		// As a float the bound MaxInt64 rounds up to 2^63, the first value outside the range
+		if val >= math.MinInt64 && val < math.MaxInt64 {
 			return int64(math.Round(float64(val))), err
 		}
 		return 0, ErrConversionSizeOverflow
 	case float64:
 		val, err := maybeSelf.ToFloat64()
-		if val >= math.MinInt64 && val <= math.MaxInt64 {
+		if val >= math.MinInt64 && val < math.MaxInt64 {
 			return int64(math.Round(val)), err
 		}
 		return 0, ErrConversionSizeOverflow
@@ -1066,13 +1074,17 @@ func (maybeSelf someDef[T]) ToUint32() (uint32, error) {
 		return 0, ErrConversionSizeOverflow
 	case float32:
 		val, err := maybeSelf.ToFloat32()
-		if val >= 0 && val <= math.MaxUint32 {
-			return uint32(math.Round(float64(val))), err
+		// Compare the rounded value as a float64: float32 cannot represent MaxUint32
+		if rounded := math.Round(float64(val)); val >= 0 && rounded <= math.MaxUint32 {
+			return uint32(rounded), err
 		}
 		return 0, ErrConversionSizeOverflow
 	case float64:
 		val, err := maybeSelf.ToFloat64()
-		return uint32(math.Round(val)), err
+		if rounded := math.Round(val); val >= 0 && rounded <= math.MaxUint32 {
+			return uint32(rounded), err
+		}
+		return 0, ErrConversionSizeOverflow
 	}
 }
 
@@ -1147,13 +1159,14 @@ func (maybeSelf someDef[T]) ToUint64() (uint64, error) {
 		return 0, ErrConversionSizeOverflow
 	case float32:
 		val, err := maybeSelf.ToFloat32()
-		if val >= 0 && val <= math.MaxUint64 {
+		// As a float the bound MaxUint64 rounds up to 2^64, the first value outside the range
+		if val >= 0 && val < math.MaxUint64 {
 			return uint64(math.Round(float64(val))), err
 		}
 		return 0, ErrConversionSizeOverflow
 	case float64:
 		val, err := maybeSelf.ToFloat64()
-		if val >= 0 && val <= math.MaxUint64 {
+		if val >= 0 && val < math.MaxUint64 {
 			return uint64(math.Round(val)), err
 		}
 		return 0, ErrConversionSizeOverflow
@@ -1236,10 +1249,17 @@ func (maybeSelf someDef[T]) ToUintptr() (uintptr, error) {
 		return uintptr(0), ErrConversionSizeOverflow
 	case float32:
 		val, err := maybeSelf.ToFloat32()
-		return uintptr(math.Round(float64(val))), err
+		// As a float the bound rounds up to the first value outside the range
+		if val >= 0 && float64(val) < float64(maxUintptr) {
+			return uintptr(math.Round(float64(val))), err
+		}
+		return uintptr(0), ErrConversionSizeOverflow
 	case float64:
 		val, err := maybeSelf.ToFloat64()
-		return uintptr(math.Round(val)), err
+		if val >= 0 && val < float64(maxUintptr) {
+			return uintptr(math.Round(val)), err
+		}
+		return uintptr(0), ErrConversionSizeOverflow
 	}
 }
 
